@@ -128,6 +128,20 @@ pub fn render(g: &Graph) -> FileSet {
             }
         }
     }
+    if g.noise == Noise::UnreachableOtherSchema {
+        // siblings whose names differ from reachable files' names in letter case only (distinct files
+        // on a case-sensitive file system), holding yet another schema
+        for r in reach.iter().take(2) {
+            let upper = file_name(*r).to_uppercase();
+            let mixed = format!("F{}", &file_name(*r)[1..]);
+            for (k, name) in [upper, mixed].into_iter().enumerate() {
+                files.push((
+                    name,
+                    format!("<?xml version=\"1.0\"?>\n<xs:schema xmlns:xs=\"http://www.w3.org/2001/XMLSchema\" targetNamespace=\"http://example.org/graph/yankee{r}{k}\"><xs:complexType name=\"Stray{r}Case{k}\"><xs:sequence/></xs:complexType></xs:schema>\n"),
+                ));
+            }
+        }
+    }
     if g.noise == Noise::UnreachableBroken {
         files.push(("zz-notes.xsd".to_string(), "this is not XML at all \u{0} <<<".to_string()));
         files.push(("zz-other.xsd".to_string(), "<?xml version=\"1.0\"?><html><body>not a schema</body></html>".to_string()));
@@ -318,7 +332,7 @@ pub fn run(tier: Tier) -> i32 {
         "C11",
         tier,
         "exploration",
-        "import graphs: EXHAUSTIVE over all directed graphs with self-loops on 1..=3 files (quick) / 1..=4 files (thorough) x every start file, each file declaring a complex type, a simple type and an anonymous-typed global element with names unique to it, in four namespace styles (distinct or colliding three-letter abbreviations x importer declares prefixes for what it imports or not) and with one namespace split over two files; proptest-generated graphs on 5-8 files with repeated imports; every graph with unreachable files is also run with those files removed / replaced by malformed and non-schema XML / replaced by other schemas, and the output must be byte-identical. Each generation runs in an isolated worker process (exit class + wall time). Oracle: BFS reachability => expected multiset of struct names (syn). Non-trivial: graph with a cycle, a self-import, a diamond or an unreachable sibling; distinct by (edges, start, noise).",
+        "import graphs: EXHAUSTIVE over all directed graphs with self-loops on 1..=3 files (quick) / 1..=4 files (thorough) x every start file, each file declaring a complex type, a simple type and an anonymous-typed global element with names unique to it, in four namespace styles (distinct or colliding three-letter abbreviations x importer declares prefixes for what it imports or not) and with one namespace split over two files; proptest-generated graphs on 5-8 files with repeated imports; every graph with unreachable files is also run with those files removed / replaced by malformed and non-schema XML / replaced by other schemas (together with siblings whose names differ from reachable files' names in letter case only), and the output must be byte-identical. Each generation runs in an isolated worker process (exit class + wall time). Oracle: BFS reachability => expected multiset of struct names (syn). Non-trivial: graph with a cycle, a self-import, a diamond or an unreachable sibling; distinct by (edges, start, noise).",
     );
     ev.assume("struct names are read from the output with syn (text scan if the output does not parse)");
     let nmax = tier.pick(3, 4);
